@@ -14,6 +14,7 @@ import (
 	"context"
 	"encoding/json"
 	"fmt"
+	"os"
 	"reflect"
 	"sort"
 	"strconv"
@@ -63,13 +64,13 @@ type CallInfo struct {
 	Name  string `json:"name,omitempty"`
 	Sub   string `json:"sub,omitempty"`
 	// Write-only details
-	PatchType string `json:"pt,omitempty"`
-	Manager   string `json:"mgr,omitempty"`
-	DryRun    bool   `json:"dry,omitempty"`
-	Outcome   string `json:"outcome,omitempty"`
-	Applied   bool   `json:"applied,omitempty"` // took effect on the store (even if no-op)
-	Changed   bool   `json:"changed,omitempty"` // stored bytes changed
-	Err       string `json:"err,omitempty"`     // canonical error class returned to the caller
+	PatchType   string `json:"pt,omitempty"`
+	Manager     string `json:"mgr,omitempty"`
+	DryRun      bool   `json:"dry,omitempty"`
+	Outcome     string `json:"outcome,omitempty"`
+	Applied     bool   `json:"applied,omitempty"` // took effect on the store (even if no-op)
+	Changed     bool   `json:"changed,omitempty"` // stored bytes changed
+	Err         string `json:"err,omitempty"`     // canonical error class returned to the caller
 	Propagation string `json:"prop,omitempty"`
 
 	editsManagedFields bool
@@ -88,8 +89,8 @@ type objKey struct {
 func (k objKey) String() string { return k.GK.String() + "/" + k.NS + "/" + k.Name }
 
 type entry struct {
-	obj     map[string]any            // full object incl. apiVersion/kind/metadata
-	applied map[string]map[string]any // SSA: manager -> last applied config (main resource)
+	obj           map[string]any            // full object incl. apiVersion/kind/metadata
+	applied       map[string]map[string]any // SSA: manager -> last applied config (main resource)
 	appliedStatus map[string]map[string]any
 	bfa           bool // managedFields were cleared: the next apply records "before-first-apply"
 }
@@ -127,7 +128,7 @@ type Store struct {
 	indexes    map[string]Indexer // key: GK|field
 
 	// history per key for lagging readers: every stored version, oldest first.
-	History map[objKey][]map[string]any
+	History     map[objKey][]map[string]any
 	KeepHistory bool
 	// Lag, if set, lets a Get return an older version: it returns how many versions back (0 = fresh).
 	Lag func(k objKey, versions int) int
@@ -620,7 +621,9 @@ func (s *Store) List(ctx context.Context, list client.ObjectList, opts ...client
 		}
 		return s.end(&c, o, nil)
 	}
-	if rl, ok := list.(interface{ GetUnstructuredList() *unstructured.UnstructuredList }); ok {
+	if rl, ok := list.(interface {
+		GetUnstructuredList() *unstructured.UnstructuredList
+	}); ok {
 		ul := rl.GetUnstructuredList()
 		ul.Items = nil
 		for _, m := range items {
@@ -835,6 +838,11 @@ func (s *Store) update(obj client.Object, sub string, dry bool) error {
 	if !ok {
 		s.mu.Unlock()
 		return s.end(&c, o, kerrors.NewNotFound(schema.GroupResource{Group: gvk.Group, Resource: strings.ToLower(gvk.Kind)}, k.Name))
+	}
+	if os.Getenv("SIMSTORE_DEBUG") != "" {
+		a, _ := json.Marshal(m)
+		b, _ := json.Marshal(e.obj)
+		fmt.Fprintf(os.Stderr, "SIMSTORE update %s/%s sub=%q\n  new: %s\n  old: %s\n", c.GK, k.Name, sub, a, b)
 	}
 	if rv := strOf(mdOf(m), "resourceVersion"); rv != "" && rv != strOf(mdOf(e.obj), "resourceVersion") {
 		s.mu.Unlock()
